@@ -136,7 +136,10 @@ class Worklist:
         return sorted(m for m in tested if self.marks(m))
 
     def iteration_reach(self, srcs: Sequence[Node], removed=(), removed_edges=()) -> Set[Node]:
-        return self.g.reach(srcs, removed=removed, skip_labels=skip, removed_edges=removed_edges)
+        """Nodes reachable within one iteration of THIS loop: exceptional edges are
+        not followed and the loop header is a wall (back edges of inner loops are
+        followed, so code after an inner loop is reachable from inside it)."""
+        return self.g.reach(srcs, removed=list(removed) + [self.header], skip_labels=is_exc, removed_edges=removed_edges)
 
     def reaches_backedge(self, srcs: Sequence[Node], removed=()) -> Optional[Node]:
         """A node reachable within the iteration that has a back edge to the
